@@ -69,7 +69,9 @@ META = {
                 "matching updates committed after its registration, in commit order (C06_live_exactly_the_matching_suffix), nothing twice when the published ids are "
                 "distinct (C06_exactly_once, with C06_committed_distinct: distinct publisher ids give a duplicate-free commit order, each subscription event being "
                 "dispatched at most once); the handler writes in FIFO order what was buffered; with Bolt the stored history is the commit order, entry k at sequence k; "
-                "the commit order is append-only and an update acknowledged before another one is committed precedes it. Tied to the code by schedule-steered runs of the "
+                "the commit order is append-only and an update acknowledged before another one is committed precedes it; and at the granularity of single lock / atomic / channel "
+                "operations (C06_fine_grained_order_and_no_loss): under the hub's usage pattern the live updates are queued, flushed by Ready or sent in dispatch order, each once, "
+                "and nothing accepted is left behind once Ready has completed. Tied to the code by schedule-steered runs of the "
                 "instrumented transports and of a LocalSubscriber (every schedule with <= 2 preemptions per scenario) and by handler-level histories.",
         "design_ref": "DESIGN.md §5 C06", "note": HUB_NOTE + " Both transports, any retention size (C06_live_exactly_the_matching_suffix is stated with retention off; its "
                 "general form is C07_replay_then_live_with_retention); for the local transport the 'commit order' is the order of the fan-out critical sections.",
